@@ -6,7 +6,9 @@ import vf
 
 PKG = "core/store/ledgerstore"
 HARNESS = "b_exec_ledger"
-TARGETS = ["R", "NEW", "FWD", "SDO", "SDS", "STO", "REV", "LOOP"]
+TARGETS = ["R", "NEW", "FWD", "SDO", "SDS", "STO", "REV", "LOOP", "DD2", "DD0", "DDS", "DRD", "RW"]
+NEVER_OK = ("REV", "LOOP", "RW")
+BURNERS = ("SDS", "DDS")
 BURN_KEY = "SELFDESTRUCT:self-beneficiary:balance-burnt"
 
 
@@ -44,9 +46,10 @@ def scenarios_from_edges(edges, rng, per_group=40):
         b = e["from"]["bal"][a["s"]]
         cost = a["gl"] * a["gp"] + a["v"]
         bc = "zero" if b == 0 else ("lt" if b < cost else "ge")
-        key = (a["to"], a["nd"], a["gl"], a["gp"], a["v"], bc)
-        classes.setdefault(key, 0)
-        classes[key] += 1
+        for c in {bc, "zero", "ge"} | ({"lt"} if cost > 0 else set()):   # the model's balance is one point; every balance class is run
+            key = (a["to"], a["nd"], a["gl"], a["gp"], a["v"], c)
+            classes.setdefault(key, 0)
+            classes[key] += 1
     keys = sorted(classes)
     rng.shuffle(keys)
     groups = []
@@ -55,7 +58,7 @@ def scenarios_from_edges(edges, rng, per_group=40):
         for (to, nd, gl, gp, v, bc) in keys[i:i + per_group]:
             txs.append({"s": "S", "to": to, "nd": nd, "glmode": {0: "below", 1: "exact"}.get(gl, "plus"), "gl": 0 if gl < 3 else 100000,
                         "gp": gp, "v": v * 1000, "class": bc, "tag": "mc"})
-        groups.append({"fund": {"S": 1000000, "S2": 0, "SDS": 700, "SDO": 700}, "txs": txs})
+        groups.append({"fund": {"S": 1000000, "S2": 0, "SDS": 700, "SDO": 700, "DD2": 2500, "DDS": 2500, "DRD": 1500}, "txs": txs})
     return groups, len(keys)
 
 
@@ -63,12 +66,12 @@ def random_groups(rng, ngroups, ntx):
     groups = []
     for g in range(ngroups):
         fund = {"S": rng.choice([0, 50000, 1000000, 3000000]), "S2": rng.choice([0, 30000, 500000])}
-        for c in ("SDS", "SDO", "FWD", "STO"):
+        for c in ("SDS", "SDO", "FWD", "STO", "DD2", "DD0", "DDS", "DRD", "RW"):
             if rng.random() < 0.5:
                 fund[c] = rng.randrange(1, 5000)
         txs = []
         for i in range(ntx):
-            to = rng.choice(TARGETS + ["B", "SDS", "SDO", "FWD"])
+            to = rng.choice(TARGETS + ["B", "SDS", "SDO", "FWD", "DD2", "DD2", "DDS", "DRD", "DD0"])
             t = {"s": rng.choice(["S", "S", "S2"]), "to": to, "nd": 0 if rng.random() < 0.85 else rng.choice([-1, 1, 2]),
                  "glmode": rng.choice(["below", "exact", "plus", "plus", "plus", "abs"]), "gl": rng.choice([0, 1, 700, 2300, 9000, 30000, 60000, 150000]),
                  "gp": rng.choice([0, 1, 1, 2, 3]), "v": rng.choice([0, 0, 1, 999, 5000, 200000]), "tag": "rnd"}
@@ -110,7 +113,7 @@ def diagnose(prev, e):
     db = e["burnt"] - prev["burnt"]        # burnt = initial sum of ALL ONG balance entries - current sum
     if db < 0:
         return "applied-tx:%s:ong-created-from-nothing" % to
-    if db > 0 and not (to == "SDS" and e["ok"]):
+    if db > 0 and not (to in BURNERS and e["ok"]):
         return "applied-tx:%s:ong-lost" % to
     if prev["bal"][s] - e["bal"][s] > e["gl"] * e["gp"] + e["v"]:
         return "applied-tx:%s:charged-more-than-gaslimit*price+value" % to
@@ -133,8 +136,8 @@ def trace_check(ctx, trace_path, what="C07"):
             k = "%s/%s/%s" % (e["event"], e["to"], "ok" if e["ok"] else "fail")
             counts[k] = counts.get(k, 0) + 1
             # the known-finding candidate: ONG leaves all balances in a successful call of the self-destruct-to-self contract
-            if e["event"] == "Applied" and e["burnt"] > prev["burnt"] and e["to"] == "SDS" and e["ok"]:
-                ctx.violation(BURN_KEY, {"event_index": i + 1, "burnt_gwei": e["burnt"] - prev["burnt"], "contract_balance_before": prev["bal"]["SDS"],
+            if e["event"] == "Applied" and e["burnt"] > prev["burnt"] and e["to"] in BURNERS and e["ok"]:
+                ctx.violation(BURN_KEY, {"event_index": i + 1, "burnt_gwei": e["burnt"] - prev["burnt"], "to": e["to"], "contract_balance_before": prev["bal"]["SDS"],
                                          "value": e["v"]}, {"trace_prefix": ev[max(0, i - 3):i + 1]})
         prev = e
     v = ctx.trace_validate("EvmTx_Trace", trace_path, timeout=1800)
